@@ -473,6 +473,25 @@ func (s *Sim) drain() {
 	s.endOfRun()
 }
 
+// timedOut: the packet's timeout (height or timestamp) has provably passed at the last committed block.
+func (s *Sim) timedOut(p *Pkt) bool {
+	if p.TOHeight != 0 && uint64(s.N.Height) >= p.TOHeight {
+		return true
+	}
+	return p.TOTime != 0 && p.TOTime != s.farTimeout() && uint64(s.N.Now().UnixNano()) >= p.TOTime
+}
+
+// expiring: deliverable no more (the next block is at or past the timeout) but not yet provably timed out.
+func (s *Sim) expiring(p *Pkt) bool {
+	if s.timedOut(p) {
+		return false
+	}
+	if p.TOHeight != 0 && uint64(s.N.Height+1) >= p.TOHeight {
+		return true
+	}
+	return p.TOTime != 0 && p.TOTime != s.farTimeout() && uint64(s.N.Now().Add(5*time.Second).UnixNano()) >= p.TOTime
+}
+
 func (s *Sim) relayAll() {
 	for round := 0; round < 40; round++ {
 		progress := false
@@ -483,9 +502,9 @@ func (s *Sim) relayAll() {
 			switch p.State {
 			case PktInFlight:
 				switch {
-				case p.TOHeight != 0 && uint64(s.N.Height) >= p.TOHeight:
+				case s.timedOut(p):
 					s.execTimeout(Op{ID: -1, K: "timeout", Ref: p.Origin})
-				case p.TOHeight != 0 && uint64(s.N.Height+1) >= p.TOHeight:
+				case s.expiring(p):
 					// neither deliverable nor provably timed out yet: wait one block
 				default:
 					s.execDeliver(Op{ID: -1, K: "deliver", Ref: p.Origin})
